@@ -54,6 +54,13 @@ def render(rec):
         fields = [f_is, f_ta, f_al, f_st, f_fl, f_in, f_ac]
     else:
         fields = [f_is, f_al, f_st, f_fl, f_ac, f_ta, f_in]
+    # record-level string fields that carry no automaton data (kbmag / GAP records may hold any): an empty string and one
+    # ending in a closing parenthesis, at the front, in the middle or at the end of the record, for two thirds of the records
+    extra = (n + init + len(names) + len(trans)) % 3
+    if extra == 1:
+        fields = [("comment", '""')] + fields[:3] + [("source", '"(x)"')] + fields[3:]
+    elif extra == 2:
+        fields = fields[:1] + [("source", '"f(a,b)"')] + fields[1:] + [("comment", '""')]
     return "_RWS.wa" + A + rec_(fields, 1) + ";\n"
 
 
